@@ -12,8 +12,8 @@ CHECKS = {
    tech="exhaustive byte-string enumeration against a reference decoder"),
 }
 CHECKS["C10"] = dict(level="model_checking", ref="DESIGN.md §5 C10, §9", thorough=True,
-   text="explicit-state relational exploration: every (map schema, map document) state of a dedicated family (1-3 members / two alternatives over a 17-member alphabet x 122 map documents) and as transitions ALL n! permutations of every document map's entries (CBOR value order; JSON text order) and all permutations of key-disjoint schema members (both validators); the successor must show the state's verdict",
-   note="no reference model is trusted (purely relational); the duplicate/equivalent-key sentence of C10 is not covered; one recorded CBOR defect (type-keyed member claims in encoding order) is attributed structurally",
+   text="explicit-state relational exploration: every (map schema, map document) state of a dedicated family (1-3 members over a 20-member alphabet incl. bounded tables; two alternatives with up to two members each; x 130 map documents incl. duplicate and equivalent keys) and as transitions ALL n! permutations of every document map's entries (CBOR value order; JSON text order) and all permutations of key-disjoint schema members (both validators); the successor must show the state's verdict",
+   note="no reference model is trusted (purely relational); duplicate-key accounting is judged where every member is single-keyed; two recorded CBOR defects are attributed only on the committed state lists under known/ (structural pattern AND listed state)",
    tech="exhaustive permutation enumeration, differential oracle")
 CHECKS["C14"] = dict(level="model_checking", ref="DESIGN.md §5 C14, §9", thorough=True,
    text="every (schema, JSON document) state up to weight 3 (4 thorough) x JSON universe on both validators; from each state the histories repeat / call-after-all-other-calls (reverse sweep) / string entry point are executed and the ordered (location, reason) lists compared; every JSON error location is resolved in the document; a fixed table checks that malformed schema, malformed document and non-conforming document come back as different error kinds",
